@@ -14,7 +14,7 @@ PROP = dict(
         rule='one evaluation = one line of the harness trace: a sequential AllocFrame/FreeFrame/stats call on the real '
              'BitmapAllocator replayed through the Lean pmm model (a | frame, f x | code, s | dump), a lock-leak probe after '
              'each of them (lk | 0/1), or one multi-core stress round (round <workers> <ops each> <yield mode> <GOMAXPROCS> p '
-             '<pool sizes> | <duplicates> <lost> <stuck> <totals_ok> t <total> <reserved> <free at start> <held at end> '
+             '<pool sizes in memory-map order> o <address rank of each pool; half of the rounds list the pools in non-ascending order> | <duplicates> <lost> <stuck> <totals_ok> t <total> <reserved> <free at start> <held at end> '
              '<drained> c <counters>) judged by the oracle from the raw counters and the model state; distinct = by hash of '
              'the line; non-trivial = a stress round, a successful allocation or a free',
         trusted=['mutual exclusion of the real spinlock (C08) and sequentially consistent interleaving of lock-protected code '
